@@ -56,6 +56,16 @@ func (c *Configuration) Clone() Configuration {
 	return configuration
 }
 
+// hasVoter returns true if at least one member of the configuration is a voting member.
+func (c *Configuration) hasVoter() bool {
+	for id := range c.Members {
+		if c.IsVoter[id] {
+			return true
+		}
+	}
+	return false
+}
+
 // String returns a string representation of the configuration.
 func (c *Configuration) String() string {
 	var builder strings.Builder
